@@ -1029,3 +1029,21 @@ fn p1_page(page: Page<Size4KiB>, recursive_index: PageTableIndex) -> Page {
         page.p2_index(),
     )
 }
+
+/// Verification hook (only with `--cfg x86_64_verif`): the page of the level 3 table used for `page`.
+#[cfg(x86_64_verif)]
+pub fn verif_p3_page<S: PageSize>(page: Page<S>, recursive_index: PageTableIndex) -> Page {
+    p3_page(page, recursive_index)
+}
+
+/// Verification hook (only with `--cfg x86_64_verif`): the page of the level 2 table used for `page`.
+#[cfg(x86_64_verif)]
+pub fn verif_p2_page<S: NotGiantPageSize>(page: Page<S>, recursive_index: PageTableIndex) -> Page {
+    p2_page(page, recursive_index)
+}
+
+/// Verification hook (only with `--cfg x86_64_verif`): the page of the level 1 table used for `page`.
+#[cfg(x86_64_verif)]
+pub fn verif_p1_page(page: Page<Size4KiB>, recursive_index: PageTableIndex) -> Page {
+    p1_page(page, recursive_index)
+}
